@@ -2,6 +2,7 @@ package c16
 
 import (
 	"fmt"
+	"sort"
 	"strings"
 	"testing"
 
@@ -17,16 +18,25 @@ type ReasonCase struct {
 	Ops []projsim.Op   `json:"ops"`
 }
 
-func wantReason(keys []string) string {
-	switch len(keys) {
-	case 0:
-		return ""
-	case 1:
-		return keys[0] + " changed"
-	case 2:
-		return keys[0] + " and " + keys[1] + " changed"
+// reasonNames checks, without assuming an order or a wording, that the reason names every part
+// that differs and no part that does not: every differing part's name occurs in the text, and
+// once those are taken out no name of an equal part does.
+func reasonNames(text string, differ, same []string) string {
+	rest := text
+	byLen := append([]string(nil), differ...)
+	sort.Slice(byLen, func(i, j int) bool { return len(byLen[i]) > len(byLen[j]) })
+	for _, k := range byLen {
+		if !strings.Contains(rest, k) {
+			return fmt.Sprintf("%q differs but is not named", k)
+		}
+		rest = strings.Replace(rest, k, "\x00", 1)
 	}
-	return strings.Join(keys[:len(keys)-1], ", ") + ", and " + keys[len(keys)-1] + " changed"
+	for _, k := range same {
+		if strings.Contains(rest, k) {
+			return fmt.Sprintf("%q is named but does not differ", k)
+		}
+	}
+	return ""
 }
 
 func execReason(c ReasonCase) (v ev.Verdict) {
@@ -64,12 +74,6 @@ func execReason(c ReasonCase) (v ev.Verdict) {
 				if e.Text == "environment changed" {
 					return ev.Failf("reason-generic", "op %d: %s is re-evaluated because its environment changed, but the reason %q does not name the parts that differ", n, e.Label, e.Text)
 				}
-				// an environment reason must come with its diff
-				for _, k := range projsim.EnvKeys {
-					if strings.HasPrefix(e.Text, k+" ") || strings.Contains(e.Text, ", "+k) || strings.Contains(e.Text, "and "+k+" changed") {
-						return ev.Failf("reason-without-diff", "op %d: %s is re-evaluated because %q but no diff is attached", n, e.Label, e.Text)
-					}
-				}
 				continue
 			}
 			v.Classes = append(v.Classes, fmt.Sprintf("diffkeys:%d", len(e.DiffKeys)))
@@ -80,8 +84,8 @@ func execReason(c ReasonCase) (v ev.Verdict) {
 			if len(e.DiffKeys) == 0 {
 				return ev.Failf("diff-of-equal-environments", "op %d: %s is re-evaluated with reason %q but no part of its environment differs", n, e.Label, e.Text)
 			}
-			if want := wantReason(e.DiffKeys); e.Text != want {
-				return ev.Failf("reason-mismatch", "op %d: %s is re-evaluated with reason %q; the parts of its environment that differ are %v, so the reason should read %q", n, e.Label, e.Text, e.DiffKeys, want)
+			if why := reasonNames(e.Text, e.DiffKeys, e.SameKeys); why != "" {
+				return ev.Failf("reason-mismatch", "op %d: %s is re-evaluated with reason %q; the parts of its environment that differ are %v (equal: %v): %s", n, e.Label, e.Text, e.DiffKeys, e.SameKeys, why)
 			}
 			for _, k := range e.DiffKeys {
 				v.Classes = append(v.Classes, "key:"+k)
